@@ -42,7 +42,14 @@ EXPLANATION = (
     'failure to acquire being decided by that primitive only; '
     'R5 the namespace that read_cmd_line_file filled is the one the Interpreter is built from, and the replay dominates the construction; '
     'R6 wherever msetup copies or opens a recovery-critical file by name (the backup before a wipe), its absence in a partial build '
-    'directory is survivable: a FileNotFoundError handler encloses the call or an existence test of that very name dominates it; '
+    'directory is survivable: a FileNotFoundError handler encloses the call or an existence test of that very name dominates it; and '
+    'wherever msetup hands control to a repository function that (within 4 calls, arguments bound, constructors followed) reads a '
+    'constant-named file of meson-private and refuses when it is absent (every handler the FileNotFoundError meets on its way out raises '
+    'or re-raises, no existence test of that name dominates any frame, nor any call site of the msetup function inside msetup), the files '
+    'whose existence IS tested before the hand-off must not all be published before that file is written (CFG order of the writers in '
+    'msetup) - otherwise a kill in between leaves exactly the state in which the re-run of the same plain `meson setup -D...` fails '
+    '(validate_dirs -> mconf.run_impl -> build.load behind a test of coredata.dat only; reported at the entry-most function reached through '
+    'single call sites, construct = resolved callee + file, free of local names); '
     'R7 a file that a configuration-time function reads back with pickle/json.load and itself rewrites in place under the same symbolic '
     'name is read tolerantly (handler for what a torn file raises); in R2b the presence test of cmd_line.txt must name the very file the '
     'replay reads; R8 set_from_configure_command in msetup runs only behind a test that first_invocation is false (never on the fresh '
@@ -58,7 +65,10 @@ EXPLANATION = (
     'read alternative by alternative with reaching definitions - one that names the protected file alone and reaches the sink is an in-place '
     'open; in R2b a handler shared by several classes is judged per class, the atoms `isinstance(<caught>, C)` being decided by the class lattice. '
     'A violation is reported only where every call/condition of the judged region was classified; otherwise the verdict is Undecided. '
-    'NOT decided: recoverability at each individual crash point; whether write_cmd_line_file records every [properties] key that '
+    'R3 note: where validate_dirs also tests build.dat, the reference treats coredata.dat without build.dat as a partial build (never SystemExit). '
+    'NOT decided: recoverability at each individual crash point; a *torn* build.dat (build.save writes it in place; the hand-off clause of R6 decides '
+    'absence only, and build.dat is outside R1 because no recovery entry point reads it once validate_dirs tests its existence); `meson configure` '
+    'as a follow-up command (the property names `meson setup` only: configure on a directory lacking cmd_line.txt dies with AttributeError cross_file); whether write_cmd_line_file records every [properties] key that '
     'read_cmd_line_file replays (cross_file/native_file: writer/reader agreement is C08.R4c, not repeated here); which values '
     'set_option/validate_value accept beyond the read-only test (C07); fsync/durability; torn *text* in cmd_line.txt (configparser.Error / '
     'literal_eval on a half-written line; unreachable once R1 holds); the order of publication between coredata.dat and cmd_line.txt (a '
@@ -73,6 +83,8 @@ ASSUMPTIONS = [
     'a strict prefix of a pickle stream makes pickle.load raise UnpicklingError or EOFError (probed once on every prefix of a sample)',
     'fcntl.flock / msvcrt.locking locks die with the descriptor, i.e. with the process',
     'file names that are not built from constants (directory listings, user input) cannot name the protected files',
+    'quick tier, R6 hand-offs: a callee that receives no constant file name is entered only if its module spells meson-private; the thorough tier enters every callee',
+    'R6 hand-offs: an unresolved `x.dump_coredata()` publishes coredata.dat (public API by role, as in R4a)',
     'quick tier, R1 scope: a file of mesonbuild/ is parsed only if its text spells a protected base name or the identifier of a '
     'function/constant found to yield one (iterated to a fixpoint); the thorough tier parses every file',
 ]
@@ -81,7 +93,8 @@ TECHNIQUE = ('who-may-write/rename/unlink over file names folded by flow-insensi
              'replace, presence-test edges, exception edges of the lock primitive, opt-out edges with helper return summaries) + path enumeration '
              'of handler bodies with helper expansion + decision table over canonical atoms with world enumeration (validate_dirs) + alias '
              'identity and dominance (replayed namespace -> Interpreter) + E1 normal form (statement-level helpers spliced into the caller '
-             'before CFG/table extraction) + alternative sets of or-ed flag constants through locals and constant lookup tables')
+             'before CFG/table extraction) + exception-escape walk over the frames of a call chain (handler path outcomes, existence-test edge cuts per frame) '
+             'with writer-order dominance as the witness condition (R6 hand-offs) + alternative sets of or-ed flag constants through locals and constant lookup tables')
 
 REFERENCE_PROTECTED = ('coredata.dat', 'cmd_line.txt')    # A.10; cross-checked against the derived reader set on every run
 PRIVATE_DIR = 'meson-private'
